@@ -71,9 +71,9 @@ func modelDiff(e error, m *tm.Node, path string) string {
 var transparentClasses = map[string]bool{"annotation": true, "stack": true, "mark": true, "secondary": true}
 
 func runC10(c *core.Ctx, r *core.Result) {
-	p := plan{fullDepth: 3, coreDepth: 4, strDepth: 2, pairDepth: 2, alphabet: tm.REG}
+	p := plan{dupDepth: 3, fullDepth: 3, coreDepth: 4, strDepth: 2, pairDepth: 2, alphabet: tm.REG}
 	if c.Thorough() {
-		p = plan{fullDepth: 4, coreDepth: 6, strDepth: 3, pairDepth: 2, alphabet: tm.REG}
+		p = plan{dupDepth: 3, fullDepth: 4, coreDepth: 6, strDepth: 3, pairDepth: 2, alphabet: tm.REG}
 	}
 	r.Bounds = p.String() + "; nil table over every exported constructor found by an AST scan of /repo"
 	r.Rule = "state = term (with strings); non-trivial = depth>=2 (a composition); outcome class = class of the outermost constructor"
